@@ -60,6 +60,29 @@ def call_np(interp, name, args, kwargs, lineno):
         return Box(A.hstack(ctx, list(pieces), origin=lineno))
     if name == 'tile':
         return Box(A.tile(ctx, args[0], args[1], origin=lineno))
+    if name == 'repeat':
+        # np.repeat(a, k, axis=n) along an axis of length one is a broadcast stretch of that axis (== np.tile); repeating the
+        # elements of a longer axis needs floor division of indices and is not modelled
+        a_ = snap(args[0])
+        ax = kwargs.get('axis', args[2] if len(args) > 2 else None)
+        if ax is None:
+            raise AnalysisError("np.repeat without axis (element-wise repetition of the flattened array)")
+        n = R(ax).as_int()
+        if n < 0:
+            n += a_.ndim
+        if not (0 <= n < a_.ndim):
+            raise AbstractRaise('AxisError', 'axis out of bounds', lineno)
+        if not (a_.shape[n] - 1).is_zero():
+            raise AnalysisError("np.repeat along an axis longer than one")
+        reps = tuple(R(args[1]) if k == n else ONE for k in range(a_.ndim))
+        return Box(A.tile(ctx, a_, reps, origin=lineno))
+    if name == 'broadcast_to':
+        a_ = snap(args[0])
+        shape = A.to_shape(ctx, args[1])
+        full = A.broadcast_shapes(ctx, [a_.shape, shape])
+        if len(full) != len(shape) or any(not (x - y).is_zero() for x, y in zip(full, shape)):
+            raise AbstractRaise('ValueError', 'operands could not be broadcast together with remapped shapes', lineno)
+        return Box(Arr(tuple(shape), lambda idx: a_.at(A.bcast_index(a_.shape, idx)), a_.kind, origin=lineno, root=a_.root))
     if name == 'linspace' and len(args) >= 3 and not kwargs:
         lo, hi, n = R(args[0]), R(args[1]), R(args[2])
         if (n - 1).is_zero():
@@ -552,6 +575,12 @@ def call_builtin(interp, name, args, kwargs, lineno, fr):
             if e.exc == 'AttributeError' and len(args) > 2:
                 return args[2]
             raise
+    if name == 'slice':
+        if len(args) == 1:
+            return A.Sl(None, args[0])
+        if len(args) == 3 and args[2] is not None and not (isinstance(args[2], Rat) and (args[2] - 1).is_zero()):
+            raise AnalysisError("slice with a step")
+        return A.Sl(args[0], args[1])
     if name == 'id':
         return Rat.const(id(args[0]))         # identity of the abstract object (stable while it is alive, like CPython's)
     if name == 'dict' and not args and not kwargs:
